@@ -16,6 +16,8 @@ RULE = ("jsstr: every string up to L over {' \" \\\\ x u { } 0 a G LF}; attrs: e
         ">= 1 reducible atom and >= 2 atoms; distinct by (splitter, bytes)")
 
 JS = [b"'", b'"', b"\\", b"x", b"u", b"{", b"}", b"0", b"a", b"G", b"\n"]
+# upper-case look-alikes of the escape prefixes and hex digits of either case (`\\X41`, `\\U0041` are NOT escapes)
+JS2 = [b"'", b"\\", b"X", b"U", b"x", b"A", b"f", b"{", b"}"]
 AT = [b"<", b">", b"=", b"'", b'"', b" ", b"\n", b"a", b"-", b":", b"/", b"1"]
 # a second, coarser alphabet with a backslash (HTML has no backslash escapes: a quote after one still closes the value)
 AT2 = [b"<a", b">", b" b=", b'"', b"'", b"\\", b" ", b"c"]
@@ -211,6 +213,7 @@ def gen_doc(rng):
 
 def gen_js(rng):
     pieces = [b"'", b'"', b"\\", b"\\u1234", b"\\x4", b"\\x41", b"\\u{1F}", b"\\u{", b"\\u12", b"\\'", b'\\"', b"\\\\", b"a", b"b ", b"\n", b"x=", b";",
+              b"\\X41", b"\\U0041", b"\\U{1F}", b"\\xAf", b"\\uABcd", b"\\xg1", b"\\u{1G}",
               b"{", b"}", b"G", b"\xff", b"\xc3\xa9"]
     return b"".join(rng.choice(pieces) for _ in range(rng.randint(0, 14)))
 
@@ -322,6 +325,8 @@ def run(ctx) -> int:
     L = 6 if ctx.thorough else 5
     for d in loaders.all_strings(JS, L):
         one(ctx, "jsstr", d)
+    for d in loaders.all_strings(JS2, L - 1):
+        one(ctx, "jsstr", b"'" + d + b"'")
     for d in loaders.all_strings(AT, L):
         one(ctx, "attrs", d)
     for d in loaders.all_strings(AT2, 6 if ctx.thorough else 4):
